@@ -1,0 +1,28 @@
+//go:build verif
+
+// Contracts for package auth, read by /verif/engine (govc). Comments only.
+package auth
+
+// ---------------------------------------------------------------- auth.go (C20)
+
+// Bit k (given as the power of two) of a small non-negative mask.
+//@ spec bitset(x Privilege, k int) bool = (int(x) / k) % 2 == 1
+
+// A grant of `mask` covers the needed privilege if they share a bit or the grant includes "all".
+//@ spec granted(mask Privilege, need Privilege) bool =
+//@     (bitset(mask, 1) && bitset(need, 1)) || (bitset(mask, 2) && bitset(need, 2)) || (bitset(mask, 4) && bitset(need, 4))
+//@     || (bitset(mask, 8) && bitset(need, 8)) || (bitset(mask, 16) && bitset(need, 16)) || bitset(mask, 16)
+
+// The nearest ancestor-or-self of r that carries a grant decides; "/" ends the walk.
+//@ spec rec nearestOK(privs map[string]Privilege, r string, need Privilege) bool =
+//@     ite(has(privs, r), granted(privs[r], need), ite(r == "/", false, nearestOK(privs, path.Dir(r), need)))
+
+//@ func (User).AuthorizeAction
+//@   props C20 C05
+//@   requires 0 <= action.Privilege && action.Privilege < 32
+//@   requires forall k string :: has(u.privileges, k) ==> 0 <= u.privileges[k] && u.privileges[k] < 32
+//@   modifies nothing
+//@   ensures (result == nil) <==> (action.Privilege == NoPrivileges || u.admin ||
+//@       (path.IsAbs(action.Resource) && len(u.privileges) > 0 && nearestOK(u.privileges, path.Clean(action.Resource), action.Privilege)))
+//@   loop 1
+//@     invariant nearestOK(u.privileges, resource, action.Privilege) == nearestOK(u.privileges, path.Clean(action.Resource), action.Privilege)
